@@ -53,7 +53,7 @@ class C18(Prop):
         "C18_no_match_unchanged", "C18_first_match", "nested_order_witness",
         "C18_exact_map", "firstMatch_under", "nonInterferingB_iff", "sibling_witness",
         "C18_fullname_components", "C18_alias_invariant", "C18_lookup_preserved", "lookup_domain_witness",
-        "D2_witness", "D3_witness", "D3b_witness",
+        "D2_witness", "D3_witness", "D3b_witness", "D7_witness",
     ]]
     anchors = [
         ("lib/python/pyflyby/_importstmt.py", "Import.replace"),
@@ -789,6 +789,14 @@ class C18(Prop):
             return False
         return G.reads_through_package_binding(failure.get("text") or case["text"], self.family_map(case))
 
+    def fam_spaced_old_reference(self, case, failure):
+        """C18-D7: the body has a reference under a dotted OLD with white space / a line break / a backslash
+        continuation around a dot inside the OLD part: the word-boundary pattern does not match it, so the import
+        is renamed and the reference is not (NameError / stale binding)."""
+        if failure.get("what") != "behaviour differs after the rename":
+            return False
+        return G.spaced_old_reference(failure.get("text") or case["text"], self.family_map(case))
+
     def fam_identifier_not_w(self, case, failure):
         """C18-D5: the program has an identifier with a code point that continues an identifier but is not `\\w`."""
         return any(not re.fullmatch(r"\w+", m) for m in re.findall(r"[^\s.()\[\],=:'\"#+*/<>-]+", case["text"])
@@ -897,6 +905,7 @@ PROP.families = {
     "nested_from_import": PROP.fam_nested_from_import,
     "identifier_not_w": PROP.fam_identifier_not_w,
     "reads_through_package_binding": PROP.fam_reads_through_package_binding,
+    "spaced_old_reference": PROP.fam_spaced_old_reference,
 }
 PROP.families = {k: _on_program(v) for k, v in PROP.families.items()}
 
